@@ -320,8 +320,11 @@ example : ∀ s ∈ [sa, sb], SkelOK s := by
 example : (combine 0 [sa, sb]).nodes.map (fun n => (n.id, n.parent)) = [(1, -1), (2, 1), (3, 2), (4, -1), (5, 4), (6, 5)] := by decide
 example : (combine 0 [sa, sb]).conns = [(100, 3), (101, 1), (200, 6), (201, 5)] := by decide
 example : (combine 0 [sa, sb]).tags = [(1, [3, 6]), (2, [1]), (3, [5])] := by decide
-/-- what the pinned code produces instead (known finding `stitch_skeletons/tags`): the tagged node of
-the second skeleton is not remapped and the master's lists are doubled -/
-example : tagsAsCoded 0 [sa, sb] = [(1, [3, 3, 3]), (2, [1, 1]), (3, [2])] := by decide
+/- Historical (before the `fix:` commit for C11): navis returned `{1: [3, 3, 3], 2: [1, 1], 3: [2]}` here — the
+tagged node of the second skeleton was not remapped and the master's lists were doubled. -/
+
+/-- `method = [3, 6]` (ids of the combined table): only the bridge between the two listed nodes is allowed -/
+example : (healAdded (combine 0 [sa, sb]).nodes { method := .list [3, 6] }).map (fun e => (e.a, e.b, e.d2)) = [(3, 6, 441)] := by decide
+example : (healAdded (combine 0 [sa, sb]).nodes {}).map (fun e => (e.a, e.b, e.d2)) = [(1, 4, 400)] := by decide
 
 end Navis.Props.C11
